@@ -182,11 +182,13 @@ def work(p):
         # the same boundary goals through the restart policy: the first attempt (far start) and the restart are limited to
         # their entry test (max_iters=0) and the scripted restart vector is theta0 itself, so a restart call that judges
         # with the wrong tolerance accepts a pose the first call would refuse
-        if not free:
-            span0 = np.where(ref0.hi - ref0.lo > 0, ref0.hi - ref0.lo, 1.0)
-            fr0 = list(np.clip((th0 - ref0.lo) / span0, 0, 1))
+        if True:
+            # the limit-respecting path draws its restart vector between the joint limits, the free path in [-pi, pi]
+            lo0, span0 = (-np.pi * np.ones(ref0.n), 2 * np.pi * np.ones(ref0.n)) if free else (
+                ref0.lo, np.where(ref0.hi - ref0.lo > 0, ref0.hi - ref0.lo, 1.0))
+            fr0 = list(np.clip((th0 - lo0) / span0, 0, 1))
             far0 = ref0.clamp(th0 + np.linspace(1.3, -1.1, ref0.n))
-            if np.allclose(ref0.lo + np.array(fr0) * span0, th0, rtol=0, atol=1e-12):
+            if np.allclose(lo0 + np.array(fr0) * span0, th0, rtol=0, atol=1e-12):
                 for kind in ("rot", "pos"):
                     for mag_name, mag in (("geo_mean", float(np.sqrt(ptol * rtol))), ("twice_max", 2 * max(ptol, rtol))):
                         d = se3.unit(np.array([0.3, -0.5, 0.8])) * mag
